@@ -181,10 +181,8 @@ theorem prim_enc (v : Val) (h : primOk v = true) : ∃ e, encode henv v = .ok e 
     exact ⟨.dict false acc', by simp [encode, h.1, h1, h4, DAcc.toVal], by simp [isPrim, h5]⟩
   | .inst _ reg fs, h =>
     simp only [primOk] at h
-    obtain ⟨⟨qs, h1, h2⟩, ⟨qs', h3, h4⟩⟩ := prim_encF fs h
-    cases reg
-    · exact ⟨.dict false qs', by simp [encode, h3], by simp [isPrim, h4]⟩
-    · exact ⟨.dict false qs, by simp [encode, h1], by simp [isPrim, h2]⟩
+    obtain ⟨qs, h1, h2⟩ := prim_encF fs h
+    exact ⟨.dict false qs, by simp [encode, h1], by simp [isPrim, h2]⟩
 theorem prim_encL (xs : List Val) (h : primOkL xs = true) : ∃ es, encodeL henv xs = .ok es ∧ isPrimL es = true := by
   match xs, h with
   | [], _ => exact ⟨[], by simp [encodeL], rfl⟩
@@ -208,21 +206,20 @@ theorem prim_encP (ps : List (Val × Val)) (h : primOkP ps = true) :
     · exact hk3
     · exact h5 q hq
 theorem prim_encF (fs : List (Str × FMeta × Val)) (h : primOkF fs = true) :
-    (∃ qs, toDictL henv fs = .ok qs ∧ isPrimP qs = true) ∧ (∃ qs, encAllF henv fs = .ok qs ∧ isPrimP qs = true) := by
+    ∃ qs, toDictL henv fs = .ok qs ∧ isPrimP qs = true := by
   match fs, h with
-  | [], _ => exact ⟨⟨[], by simp [toDictL], rfl⟩, ⟨[], by simp [encAllF], rfl⟩⟩
+  | [], _ => exact ⟨[], by simp [toDictL], rfl⟩
   | (n, m, v) :: fs, h =>
     simp only [primOkF, Bool.and_eq_true] at h
-    obtain ⟨⟨qs, h1, h2⟩, ⟨qs', h3, h4⟩⟩ := prim_encF fs h.2
+    obtain ⟨qs, h1, h2⟩ := prim_encF fs h.2
     obtain ⟨e, he1, he2⟩ := prim_enc v h.1.2
     have hme : m.enc = none := by simpa using h.1.1
-    refine ⟨?_, ⟨(.str n, e) :: qs', by simp [encAllF, he1, h3], by simp [isPrimP, isPrimLeaf, he2, h4]⟩⟩
     -- the `to_dict` loop: a nested instance goes through `to_dict` again, anything else through `encode`
     have hfe : ∃ e', fieldEnc henv m v = .ok e' ∧ isPrim e' = true := by
       match v, h.1.2, he1 with
       | .inst _ _ fs', hv, _ =>
         simp only [primOk] at hv
-        obtain ⟨⟨q2, g1, g2⟩, _⟩ := prim_encF fs' hv
+        obtain ⟨q2, g1, g2⟩ := prim_encF fs' hv
         exact ⟨.dict false q2, by simp [fieldEnc, hme, g1], by simp [isPrim, g2]⟩
       | .none, _, he1 | .bool _, _, he1 | .int _, _, he1 | .float _, _, he1 | .str _, _, he1 | .path _, _, he1
       | .enum _ _, _, he1 | .list _, _, he1 | .tuple _, _, he1 | .set _, _, he1 | .dict _ _, _, he1 =>
@@ -241,7 +238,7 @@ theorem c13_prim (x : Val) (c : Str) (reg : Bool) (fs : List (Str × FMeta × Va
     (h : primOk x = true) : ∃ d, toDict henv x = .ok d ∧ isPrim d = true := by
   subst hx
   simp only [primOk] at h
-  obtain ⟨⟨qs, h1, h2⟩, _⟩ := prim_encF henv fs h
+  obtain ⟨qs, h1, h2⟩ := prim_encF henv fs h
   exact ⟨.dict false qs, by simp [toDict, toDictF, h1], by simp [isPrim, h2]⟩
 
 /-- the statement for every Python value (no grammar restriction) -/
@@ -260,18 +257,21 @@ theorem c13_prim_full_witness : ¬ PrimFullStatement := by
   have := h h0 _ _ c13_tuple_key_witness
   simp [isPrim, isPrimP, isPrimL, isPrimLeaf] at this
 
-/-- open finding: a non-Serializable dataclass inside a list is encoded by `encode`'s generic dataclass branch, which
-    ignores `to_dict=False` (and `encoding_fn`): the hidden field `h` is written -/
-theorem c13_plain_in_list_witness :
+/-- regression (repaired by b7617dd): a non-Serializable dataclass inside a list honours `to_dict=False` — the
+    hidden field `h` is omitted, exactly as when the instance is held directly by a field -/
+example :
     toDict h0 (.inst ['Q'] true [(['l'], FMeta.plain,
         .list [.inst ['P'] false [(['a'], FMeta.plain, .int 1), (['h'], { toDict := false, enc := none, dec := none }, .int 2)]])]) =
-      .ok (.dict false [(.str ['l'], .list [.dict false [(.str ['a'], .int 1), (.str ['h'], .int 2)]])]) := by rfl
-
-/-- … whereas held directly by a field (or when the class is Serializable) the hidden field is omitted -/
-theorem c13_plain_direct_ok :
+      .ok (.dict false [(.str ['l'], .list [.dict false [(.str ['a'], .int 1)]])]) := by rfl
+example :
     toDict h0 (.inst ['Q'] true [(['p'], FMeta.plain,
         .inst ['P'] false [(['a'], FMeta.plain, .int 1), (['h'], { toDict := false, enc := none, dec := none }, .int 2)])]) =
       .ok (.dict false [(.str ['p'], .dict false [(.str ['a'], .int 1)])]) := by rfl
+
+/-- `encode` of an instance is `to_dict` of it, Serializable or not (so hooks are honoured inside containers) -/
+theorem c13_encode_is_to_dict (c : Str) (reg : Bool) (fs : List (Str × FMeta × Val)) :
+    encode henv (.inst c reg fs) = toDict henv (.inst c reg fs) := by
+  simp [encode, toDict, toDictF]
 
 /-! ### functionality -/
 
